@@ -3,9 +3,9 @@ C09 — Recon text is a faithful and stable encoding, however it is chunked.
 
 Model: `Model/Recon.lean` — values (`Value`/`Attrs`/`Items`), the layout of the three printers (`print st v`),
 `escape` / `unescape` / `isIdentifier` over the tables regenerated from the sources (`Generated/ReconTables.lean`),
-and a reference recursive-descent parser (`parse`, `parseFuel`).  The model is the code *as it is*: attribute names are
-written raw (F7), a surrogate escape panics (F16), and the printers' brace decisions are the ones of
-`StructurePrinter` / `AttributePrinter`, which lose information on three shapes of value (C09-N1..N3).
+and a reference recursive-descent parser (`parse`, `parseFuel`).  The model is the code *as it is*, i.e. after the repairs of F7 (attribute names are quoted
+when needed), F16 (a surrogate escape is an invalid escape), C09-N2 and C09-N3; the printers' brace decisions are those
+of `StructurePrinter` / `AttributePrinter`, which still lose information on one shape of value (C09-N1).
 
 Quantifier of the theorems: all strings; all values of the stated fragment `Value.wf`; all sufficient fuels.
 What is *not* here (tied by correspondence only, see NOTES-C09.md): the real nom automaton, the streaming decoder
@@ -26,8 +26,14 @@ theorem C09_unescape_escape (s : List Char) : unescape (escape s) = .ok s := une
 example : unescape (escape ['a', '"', '\\', '\n', Char.ofNat 1, 'é']) = .ok ['a', '"', '\\', '\n', Char.ofNat 1, 'é'] :=
   C09_unescape_escape _
 
-/-- The un-escaper itself does panic on the code as it is (finding F16): `"\ud800"`. -/
-theorem C09_unescape_total_fails : unescape "\\ud800".toList = .panic := by decide
+/-- **The un-escaper is total** (F16 repaired): whatever the literal, the outcome is a text or an error, never a panic;
+a `\uD800`–`\uDFFF` escape is an invalid escape. -/
+theorem C09_unescape_total (s : List Char) : unescape s ≠ .panic := unescFrom_ne_panic .none s
+
+example : unescape "\\ud800".toList = .err := by decide
+
+/-- **No input makes the (model) parser panic**: for every text, well-formed or not. -/
+theorem C09_parse_no_panic (inp : List Char) : parse inp ≠ .panic := parse_ne_panic inp
 
 /-- **The quoting decision agrees with the tokenizer**: the printers write a text bare (`is_identifier`) exactly when
 the tokenizer's `identifier` reads the whole text back as one token and it is not a reserved word. -/
@@ -59,11 +65,24 @@ theorem C09_blob_roundtrip (bs : List Nat) (hb : ∀ b ∈ bs, b < 256) (rest : 
 
 example : b64Encode [1, 2, 255] = "AQL/".toList := by decide
 
+/-- Every finite float, as its shortest decimal, is read back as the same decimal from both layouts the printers use:
+`ryu` (`StructurePrinter`) and `{:e}` (`AttributePrinter`).  (Which decimal is the shortest for a given `f64`, and which
+`f64` a decimal denotes, is outside the model.) -/
+theorem C09_float_roundtrip (neg : Bool) (m : Nat) (e : Int) (hc : (Flt.fin neg m e).isCanon = true)
+    (rest : List Char) (hd : TokEnd rest) :
+    lexPrim (ryuChars (.fin neg m e) ++ rest) = some (.ok (.float (.fin neg m e), rest)) ∧
+    lexPrim (expChars (.fin neg m e) ++ rest) = some (.ok (.float (.fin neg m e), rest)) :=
+  ⟨lexPrim_ryuChars neg m e (Flt.canon_cases hc) hd, lexPrim_expChars neg m e (Flt.canon_cases hc) hd⟩
+
+example : ryuChars (.fin true 15 (-1)) = "-1.5".toList ∧ expChars (.fin true 15 (-1)) = "-1.5e0".toList ∧
+    ryuChars (.fin false 1 21) = "1e21".toList ∧ ryuChars (.fin false 12 (-5)) = "0.00012".toList ∧
+    ryuChars (.fin false 3 2) = "300.0".toList := by decide
+
 /-! ## T2: parse ∘ print for the three printers -/
 
 /-- **Faithful**: for each of the three printers (`print_recon`, `print_recon_compact`, `print_recon_pretty`) and every
-value of the fragment `Value.wf` (no floats; attribute names are identifiers; the three shapes the printers cannot
-express are excluded — see `Value.wf`), parsing what the printer writes gives the value back, integers re-kinded the way
+value of the fragment `Value.wf` (floats finite; the one shape the printers still cannot express, C09-N1, is excluded —
+see `Value.wf`; attribute names, attribute values and slot keys are arbitrary), parsing what the printer writes gives the value back, integers re-kinded the way
 the parser kinds them (which Rust's `Value::eq` ignores).  Any fuel from `6 * size v` on is enough. -/
 theorem C09_parse_print (st : Style) (v : Value) (hw : v.wf = true) (fuel : Nat) (hf : 6 * v.size ≤ fuel) :
     parseFuel fuel (print st v) = .ok v.norm := parseFuel_print st v hw fuel hf
@@ -109,38 +128,35 @@ theorem C09_parse_print_compact_fails : ¬ C09_parse_print_compact_unrestricted 
   rw [h2] at h1
   revert h1; decide
 
-/-- C09-N2: an attribute whose value is a record with attributes and one slot is written `@a(@b k:1)`, which reads
-back with `@b k` as the slot key. -/
+/-- C09-N2 (repaired): an attribute whose value is a record with attributes and one slot is now written with braces. -/
 def witnessAttrBodySoleSlot : Value :=
   .record (.cons "a".toList (.record (.cons "b".toList .extant .nil) (.slot (.text "k".toList) (.int .i32 1) .nil)) .nil) .nil
 
-theorem C09_parse_print_attr_body_sole_slot_fails :
-    print .compact witnessAttrBodySoleSlot = "@a(@b k:1)".toList ∧
-    parseFuel 40 (print .compact witnessAttrBodySoleSlot) ≠ .ok witnessAttrBodySoleSlot.norm := by
-  refine ⟨by decide, ?_⟩
-  have h2 : parseFuel 40 (print .compact witnessAttrBodySoleSlot) =
-      .ok (.record (.cons "a".toList (.record .nil (.slot (.record (.cons "b".toList .extant .nil)
-        (.val (.text "k".toList) .nil)) (.int .i32 1) .nil)) .nil) .nil) := by rfl
-  rw [h2]; decide
+example : witnessAttrBodySoleSlot.wf = true ∧ print .compact witnessAttrBodySoleSlot = "@a(@b{k:1})".toList := by decide
+example : parse (print .compact witnessAttrBodySoleSlot) = .ok witnessAttrBodySoleSlot.norm :=
+  C09_parse_print_parse _ _ (by decide)
 
-/-- C09-N3: a slot whose key is a record with attributes and no items is written `{@a:2}`, which is rejected. -/
+/-- C09-N3 (repaired): a slot whose key is a record with attributes and no items, `{@a:2}`, is read back. -/
 def witnessBareAttrKey : Value :=
   .record .nil (.slot (.record (.cons "a".toList .extant .nil) .nil) (.int .i32 2) .nil)
 
-theorem C09_parse_print_bare_attr_key_fails :
-    print .compact witnessBareAttrKey = "{@a:2}".toList ∧ parseFuel 40 (print .compact witnessBareAttrKey) = .err := by
-  constructor
-  · decide
-  · rfl
+example : witnessBareAttrKey.wf = true ∧ print .compact witnessBareAttrKey = "{@a:2}".toList := by decide
+example : parse (print .compact witnessBareAttrKey) = .ok witnessBareAttrKey.norm :=
+  C09_parse_print_parse _ _ (by decide)
 
-/-! ## open (statement only) -/
+/-- Floats in item and in attribute position (the two layouts). -/
+def witnessFloats : Value :=
+  .record (.cons "f".toList (.float (.fin true 15 (-1))) .nil) (.val (.float (.fin false 1 21)) (.val (.float (.fin false 0 0)) .nil))
 
-/-- Floats: the shortest decimal of a finite float, written in either of the two formats (`ryu`, `{:e}`), is read back
-as the same decimal. -/
-def C09_float_roundtrip_open : Prop :=
-  ∀ (neg : Bool) (m : Nat) (e : Int), (m % 10 ≠ 0 ∨ (m = 0 ∧ e = 0)) →
-    ∀ rest, TokEnd rest →
-      lexPrim (ryuChars (.fin neg m e) ++ rest) = some (.ok (.float (.fin neg m e), rest)) ∧
-      lexPrim (expChars (.fin neg m e) ++ rest) = some (.ok (.float (.fin neg m e), rest))
+example : witnessFloats.wf = true ∧ print .compact witnessFloats = "@f(-1.5e0){1e21,0.0}".toList := by decide
+example : parse (print .pretty witnessFloats) = .ok witnessFloats.norm := C09_parse_print_parse _ _ (by decide)
+
+/-- F7 (repaired): an attribute name that is not an identifier is written quoted and read back. -/
+def witnessQuotedAttrName : Value := .record (.cons "my attr".toList (.int .i32 1) (.cons "true".toList .extant .nil)) .nil
+
+example : witnessQuotedAttrName.wf = true ∧
+    print .compact witnessQuotedAttrName = "@\"my attr\"(1)@\"true\"".toList := by decide
+example : parse (print .std witnessQuotedAttrName) = .ok witnessQuotedAttrName.norm :=
+  C09_parse_print_parse _ _ (by decide)
 
 end SwimVerif.Recon
